@@ -109,6 +109,49 @@ def run(run):
     run.extra["accepted"], run.extra["rejected"] = n_acc, n_rej
     if mism_model:
         run.broken_obligation("correspondence:accept", "Lean model and ParseQuery disagree on %d inputs, e.g. %r" % (len(mism_model), mism_model[:3]))
+    # --- characters that look like white space but are not the grammar's WS (form feed, vertical tab, NEL, NBSP,
+    #     line/paragraph separators, zero-width space), and other layouts of the word `in`: the independent lexer +
+    #     Earley recogniser decides, ParseQuery and the model must agree
+    odd_ws = ["\f", "\v", "\u0085", "\u00a0", "\u2028", "\u2029", "\u200b", "\u3000", "\x1c", "  ", " \t", "\r"]
+    sample = [k for k in items if len(k) >= 3]
+    rng.shuffle(sample)
+    odd_cases = []
+    for k in sample[: (400 if run.depth == "quick" else 4000)]:
+        lex = [Q.kind_text(x) for x in k]
+        parts = []
+        for i, lx in enumerate(lex):
+            parts.append(lx)
+            if i + 1 < len(lex) and k[i] != "' in '" and k[i + 1] != "' in '":
+                parts.append(rng.choice(odd_ws) if rng.random() < 0.3 else " ")
+        odd_cases.append("".join(parts))
+    for k in sample[: (150 if run.depth == "quick" else 1500)]:
+        if "' in '" in k:
+            lex = [Q.kind_text(x) for x in k]
+            j = list(k).index("' in '")
+            lex[j] = rng.choice(["  in ", " in  ", "\tin ", " in\t", "\nin\n", " in\n", "  in  "])
+            odd_cases.append(Q.render_kinds(k, lex))
+    omism = []
+    for i in range(0, len(odd_cases), B):
+        chunk = odd_cases[i:i + B]
+        r = h.call(op="accept-batch", qs=chunk, timeout=300)
+        if r.get("outcome") != "ok":
+            run.broken_obligation("correspondence:accept", "harness failed: %s" % r)
+            break
+        for t, rr in zip(chunk, r["res"]):
+            ea = g.is_sentence(t)
+            m = d.call("accept", t)[0]
+            run.count(("odd-ws", t))
+            if rr == 'p':
+                run.violation("C11:parser-panic", "ParseQuery panicked on %r" % t, dict(query=t))
+            elif (rr == 'a') != ea:
+                run.violation("C11:accept-mismatch:" + ("accepts-ungrammatical" if rr == 'a' else "rejects-grammatical"),
+                              "ParseQuery %s %r but the grammar says %s" % ("accepts" if rr == 'a' else "rejects", t, "sentence" if ea else "not a sentence"),
+                              dict(query=t, real=rr, earley=ea, model=m))
+            if (m == "accept") != (rr == 'a'):
+                omism.append((t, m, rr))
+    run.extra["odd_whitespace_cases"] = len(odd_cases)
+    if omism:
+        run.broken_obligation("correspondence:accept", "Lean model and ParseQuery disagree on %d odd-white-space inputs, e.g. %r" % (len(omism), omism[:3]))
     # --- structure: random longer sentences with real identifiers and layouts
     from vlib import querygen as QG
     nq = 300 if run.depth == "quick" else 3000
